@@ -17,6 +17,9 @@ use weechess_engine::searcher::{SearchArtifact, StatusEvent};
 
 pub static EPOCH: AtomicU64 = AtomicU64::new(1);
 pub static NODES: AtomicU64 = AtomicU64::new(0);
+pub static QNODES: AtomicU64 = AtomicU64::new(0);
+/// largest number of quiescence nodes any single thread entered after Cancel fired
+pub static MAX_THREAD_QNODES_AFTER_CANCEL: AtomicU64 = AtomicU64::new(0);
 pub static FINDS: AtomicU64 = AtomicU64::new(0);
 pub static INSERTS: AtomicU64 = AtomicU64::new(0);
 pub static CANCEL_SEEN: AtomicBool = AtomicBool::new(false);
@@ -48,6 +51,8 @@ thread_local! {
     static TL_RNG: Cell<u64> = Cell::new(0);
     static TL_ACCESS: Cell<u64> = Cell::new(0);
     static TL_AFTER: Cell<u64> = Cell::new(0);
+    static TL_QAFTER: Cell<u64> = Cell::new(0);
+    static TL_Q: Cell<u64> = Cell::new(0);
 }
 
 fn tl_enter() -> usize {
@@ -60,6 +65,8 @@ fn tl_enter() -> usize {
             TL_RNG.with(|r| r.set(DELAY_SEED.load(Relaxed) ^ (idx as u64 + 1).wrapping_mul(0x9E3779B97F4A7C15)));
             TL_ACCESS.with(|a| a.set(0));
             TL_AFTER.with(|a| a.set(0));
+            TL_QAFTER.with(|a| a.set(0));
+            TL_Q.with(|a| a.set(0));
         }
     });
     TL_IDX.with(|i| i.get())
@@ -137,6 +144,23 @@ fn observe(site: Site, _key: u64) {
                 std::thread::sleep(std::time::Duration::from_micros(STALL_US.load(Relaxed)));
             }
         }
+        Site::Quiescence => {
+            // batched: one shared-counter update per 256 quiescence nodes
+            let q = TL_Q.with(|c| {
+                c.set(c.get() + 1);
+                c.get()
+            });
+            if q % 256 == 0 {
+                QNODES.fetch_add(256, Relaxed);
+                if CANCEL_SEEN.load(Relaxed) {
+                    let a = TL_QAFTER.with(|c| {
+                        c.set(c.get() + 256);
+                        c.get()
+                    });
+                    MAX_THREAD_QNODES_AFTER_CANCEL.fetch_max(a, Relaxed);
+                }
+            }
+        }
         Site::Cancel => {
             if !CANCEL_SEEN.swap(true, SeqCst) {
                 NODES_AT_CANCEL.store(NODES.load(Relaxed), Relaxed);
@@ -155,6 +179,8 @@ pub fn install_observer() {
 pub fn reset() {
     EPOCH.fetch_add(1, SeqCst);
     NODES.store(0, SeqCst);
+    QNODES.store(0, SeqCst);
+    MAX_THREAD_QNODES_AFTER_CANCEL.store(0, SeqCst);
     FINDS.store(0, SeqCst);
     INSERTS.store(0, SeqCst);
     CANCEL_SEEN.store(false, SeqCst);
